@@ -17,6 +17,36 @@ DER = "crates/compiler/src/derive.rs"
 RUNTIME = "crates/compiler/src/go/runtime.rs"
 
 
+def encoder_match(run, model, f):
+    """the match that chooses an encoder by ast::TypeExpr: in f itself or in a helper of derive.rs that f calls"""
+    refs = S.idents(f.body) | {S.callee_name(c) for c in S.calls(f.body)}
+    cands = [f] + [g for g in model.fns(DER) if g.body is not None and g is not f and g.name in refs]
+    best = None
+    for g in cands:
+        for m in S.find(g.body, "Match"):
+            k = sum(1 for arm in m["arms"] if re.search(r"TypeExpr::[A-Z]", S.norm_ws(run.facts.text(DER, arm["pat"]["sp"]))))
+            if k and (best is None or k > best[0]):
+                best = (k, m)
+    return best[1] if best else None
+
+
+def r18_8(run, model):
+    run.rule("R18.8", "JSON leaves use JSON encoders, not the text renderer: in the encoder choice of the ToJson derive the unit type yields the "
+                      "literal null, bool goes through bool_to_json and string through json_escape_string (the *_to_string helpers print "
+                      "goml syntax: `()`)")
+    f = model.fn("call_to_json", DER)
+    m = encoder_match(run, model, f)
+    if m is None:
+        raise AnalysisIncomplete("call_to_json: no match over ast::TypeExpr found")
+    want = {"TUnit": "null", "TBool": "bool_to_json", "TString": "json_escape_string"}
+    for v, needle in want.items():
+        arms = [a for a in m["arms"] if re.search(r"TypeExpr::" + v + r"\b", S.norm_ws(run.facts.text(DER, a["pat"]["sp"])))]
+        ok = bool(arms) and all(needle in S.norm_ws(run.facts.text(DER, a["body"]["sp"])) for a in arms)
+        run.ob("R18.8", f"ToJson leaf {v}|encoded by {needle}", ok, site(DER, arms[0]["sp"] if arms else m["sp"]),
+               (f"{v} => " + S.norm_ws(run.facts.text(DER, arms[0]["body"]["sp"]))[:60]) if arms else f"no arm for {v}",
+               witness="struct T { tick: unit } derives {\"tick\":()} - not JSON")
+
+
 def r18_1(run, model):
     run.rule("R18.1", "the derive's encoder choice decides every field type explicitly: call_to_json / call_to_string match ast::TypeExpr without a "
                       "catch-all arm (unsupported types must become derive diagnostics)")
@@ -24,11 +54,9 @@ def r18_1(run, model):
     allv = [v["name"] for v in te["variants"]]
     for name in ("call_to_json",):
         f = model.fn(name, DER)
-        ms = list(S.find(f.body, "Match"))
-        if not ms:
-            run.ob("R18.1", f"{name}|matches on the field type", False, site(DER, f.node["sp"]), "no match on the type")
-            continue
-        m = ms[0]
+        m = encoder_match(run, model, f)
+        if m is None:
+            raise AnalysisIncomplete(f"{name}: no match over ast::TypeExpr found (directly or in a helper it calls)")
         covered = set()
         catch = []
         for arm in m["arms"]:
@@ -231,4 +259,8 @@ def run(run, model):
     run.try_rule(r18_5, model)
     run.try_rule(r18_6, model)
     run.try_rule(r18_7, model)
+    run.try_rule(r18_8, model)
+    from rules import c05
+    run.rule("R18.9", "binders of generated code are distinct variables (shared with C05 R05.6: every binder id is fresh, never interned by syntax pointer)")
+    run.try_rule(c05.r05_6, model)
     run.assume("numeric leaves go through *_to_string, whose verbs are checked by C10 R10.4")
